@@ -175,6 +175,41 @@ static void run_two_mutexes(int W) {
 	st_repair_cases++; st_wake_cases++;
 }
 
+/* a producer that publishes a whole batch of events while holding the mutex once, signalling once per event ("any number of events"):
+ * batch sizes around the powers of two, where a narrow internal counter would wrap */
+static long long bt_avail, bt_taken; static int bt_stop; static long long st_batches, st_batch_events;
+static void *batch_consumer(void *a) {
+	(void)a;
+	p_mutex_lock(mu); __atomic_add_fetch(&registered, 1, __ATOMIC_SEQ_CST);
+	for (;;) {
+		while (bt_avail == 0 && !bt_stop) p_cond_variable_wait(cv_ne, mu);
+		if (bt_avail == 0 && bt_stop) break;
+		bt_taken += bt_avail; bt_avail = 0; __atomic_add_fetch(&progress, 1, __ATOMIC_RELAXED);
+		__atomic_store_n(&arrived, 1, __ATOMIC_SEQ_CST);
+	}
+	p_mutex_unlock(mu);
+	return NULL;
+}
+static void run_batches(void) {
+	static const long sizes[] = { 1, 2, 3, 255, 256, 257, 4095, 4096, 65535, 65536, 65537, 131072, 5 }; pthread_t c; int b, t; long i;
+	scen = "batch-of-signals-under-one-lock";
+	mu = p_mutex_new(); cv_ne = p_cond_variable_new(); registered = 0; bt_avail = bt_taken = 0; bt_stop = 0; arrived = 0;
+	pthread_create(&c, NULL, batch_consumer, NULL);
+	for (b = 0; b < (int)(sizeof sizes / sizeof sizes[0]) && vh_nviol < vh_max_viol; b++) {
+		long long want;
+		/* the consumer is parked in wait (it registered under the mutex and nothing is available) */
+		for (t = 0; t < 200000 && __atomic_load_n(&registered, __ATOMIC_SEQ_CST) < 1; t++) usleep(100);
+		p_mutex_lock(mu); __atomic_store_n(&arrived, 0, __ATOMIC_SEQ_CST);
+		for (i = 0; i < sizes[b]; i++) { bt_avail++; p_cond_variable_signal(cv_ne); }
+		want = bt_taken + sizes[b];
+		p_mutex_unlock(mu);
+		for (t = 0; t < 200000; t++) { long long got; p_mutex_lock(mu); got = bt_taken; p_mutex_unlock(mu); if (got >= want) break; usleep(100); }
+		if (t == 200000) { viol("events-missed", "a batch of %ld events, each followed by a signal under one lock hold, was never consumed by the waiting consumer (20 s)", sizes[b]); break; }
+		st_batches++; st_batch_events += sizes[b];
+	}
+	p_mutex_lock(mu); bt_stop = 1; p_cond_variable_broadcast(cv_ne); p_mutex_unlock(mu);
+	if (vh_nviol == 0 || bt_taken > 0) { struct timespec ts; clock_gettime(CLOCK_REALTIME, &ts); ts.tv_sec += 5; if (pthread_timedjoin_np(c, NULL, &ts) == 0) { p_cond_variable_free(cv_ne); p_mutex_free(mu); } }
+}
 static void run_wake(int W, int mode) {      /* mode 0 broadcast-all, 1 signal-one, 2 mutex-held-on-return */
 	pthread_t th[MAXT]; int i;
 	mu = p_mutex_new(); cv_ne = p_cond_variable_new(); registered = 0; go = 0; tokens = 0; arrived = 0; release_flag = 0; awake_flag = 0;
@@ -228,13 +263,14 @@ int main(int argc, char **argv) {
 	p_libsys_init();
 	pthread_create(&wd, NULL, wd_fn, NULL);
 	for (i = 0; i < wakes && vh_nviol < vh_max_viol; i++) { int W = 1 + (int)vh_below(&r, (uint64_t)maxw); if (i % 5 == 4) run_two_mutexes(W > MAXT ? MAXT : W); else run_wake(W, (int)(i % 4)); }
+	run_batches();
 	for (i = 0; i < 4 && vh_nviol < vh_max_viol; i++) run_storm(2 + (int)vh_below(&r, 5), wakes * 2);
 	for (i = 0; i < runs && vh_nviol < vh_max_viol; i++) {
 		int P = 1 + (int)vh_below(&r, (uint64_t)maxt / 2 + 1), C = 1 + (int)vh_below(&r, (uint64_t)maxt / 2 + 1), capc = 1 + (int)vh_below(&r, 4);
 		run_buffer(P, C, items / P + 1, capc, (int)(i & 1), (int)((i >> 1) & 1), (int)(i % 5 == 4));
 	}
 	p_libsys_shutdown();
-	printf("{\"ev\":\"stats\",\"buffer_runs\":%lld,\"items\":%lld,\"waits\":%lld,\"returns_with_false_predicate\":%lld,\"wake_cases\":%lld,\"concurrent_signal_rounds\":%lld,\"waiters_woken\":%lld,\"trylock_probes_during_wait\":%lld,\"condvar_reused_with_second_mutex\":%lld,\"buffer_runs_with_trylock_producers\":%lld,\"trylock_acquisitions\":%lld,\"viol\":%d,\"wall\":%.2f}\n",
-	       st_runs, st_items, st_waits, st_spurious_returns, st_wake_cases, st_storm_rounds, st_waiters_woken, st_trylock_probes, st_repair_cases, st_try_runs, st_try_acquisitions, vh_nviol, vh_now() - t0);
+	printf("{\"ev\":\"stats\",\"buffer_runs\":%lld,\"items\":%lld,\"waits\":%lld,\"returns_with_false_predicate\":%lld,\"wake_cases\":%lld,\"concurrent_signal_rounds\":%lld,\"waiters_woken\":%lld,\"trylock_probes_during_wait\":%lld,\"condvar_reused_with_second_mutex\":%lld,\"signal_batches\":%lld,\"events_in_batches\":%lld,\"buffer_runs_with_trylock_producers\":%lld,\"trylock_acquisitions\":%lld,\"viol\":%d,\"wall\":%.2f}\n",
+	       st_runs, st_items, st_waits, st_spurious_returns, st_wake_cases, st_storm_rounds, st_waiters_woken, st_trylock_probes, st_repair_cases, st_batches, st_batch_events, st_try_runs, st_try_acquisitions, vh_nviol, vh_now() - t0);
 	return 0;
 }
